@@ -152,6 +152,10 @@ def run_closed(top, gen, pk, sched, rng):
                 if gap > 0:
                     # idle before the request: the value here must not matter (only the request cycle's does)
                     row = [rng.below(4) if pidmode == "live" else pid, 0, 0, 0, rng.below(256), 1]
+                    # first / last are don't-cares while valid is low (a source may leave `last` up after its final
+                    # byte); derived from the cycle number so that the random stream of the script does not move
+                    nz = (len(irows) * 2654435761 >> 9) & 7
+                    row[2], row[3] = int(nz == 1), int(nz in (2, 3, 4))
                     gap -= 1
                 else:
                     if payload:
